@@ -189,18 +189,15 @@ Example ex_separator_boundaries :
   sep_blanks (account_width [38; 37]%Z) 37 30 = 2%Z /\      (* one short of the column, wide amount *)
   sep_blanks (account_width [36; 20]%Z) 36 12 = 2%Z /\ sep_blanks (account_width [36; 20]%Z) 36 10 = 2%Z /\
   sep_blanks (account_width [36; 20]%Z) 20 7 = 21%Z /\ sep_blanks (account_width [40; 35]%Z) 35 0 = 0%Z /\
-  sep_blanks (account_width [40; 39]%Z) 39 0 = 2%Z.
+  sep_blanks (account_width [40; 39]%Z) 39 0 = 0%Z.
 Proof. vm_compute. repeat split. Qed.
 
-(* finding F50: byte identity of print(print J) fails by padding only.  When print leaves the second amount of
-   a pair out and the account name is within one character of the account column, the top-up of the gap is
-   written all the same: two blanks after the name.  Re-read, that amount is a calculated one, the line is
-   the bare name, and the second print differs from the first by those two blanks *)
-Theorem print_padding_not_idempotent_refuted :
-  exists names n, In n names /\
-    posting_blanks false (account_width names) n 0 <> posting_blanks true (account_width names) n 0.
-Proof. exists [36; 35]%Z, 35%Z. split; [right; left; reflexivity | vm_compute; discriminate]. Qed.
-Print Assumptions print_padding_not_idempotent_refuted.
+(* repaired finding F50 (/repo 73eebeb): a posting whose amount print leaves out is written exactly as the bare
+   name the second print writes for the (then calculated) amount - no padding either way, whatever the widths *)
+Theorem print_padding_idempotent : forall names n,
+  posting_blanks false (account_width names) n 0 = posting_blanks true (account_width names) n 0.
+Proof. intros names n. reflexivity. Qed.
+Print Assumptions print_padding_idempotent.
 
 (* ---- equity *)
 Theorem equity_reproduces_balances : forall ord cp acct kind amts ps c,
